@@ -33,7 +33,8 @@ CONF = {
         inv=['InvC04', 'InvViews'],
         mc=[('affinity', ['Submit', 'RemoveApp', 'SetPrio', 'Down', 'Up', 'RemoveServer', 'AddServer'], None)],
         gen=['affinity', 'solo', 'topology'], weights=['pressure', 'pressure'],
-        focus=[('evict', 'gen_evict'), ('affinity', 'gen_evict'), ('evict2', 'gen_evict')],
+        focus=[('evict', 'gen_evict'), ('affinity', 'gen_evict'), ('evict2', 'gen_evict'),
+               ('evict3', 'gen_mixed_evict'), ('evict4', 'gen_mixed_evict'), ('evict4', 'gen_mixed_evict')],
         rule='a history counts when after some cycle a node is exactly at a finite affinity limit; distinct = distinct environment histories'),
     'C05': dict(
         inv=['InvC05', 'InvViews'],
